@@ -1,0 +1,17 @@
+//go:build verif
+
+package nfdc
+
+// Vf19Drain removes and returns every command currently queued for the management thread
+// (verification harness only; the thread itself is not started there).
+func (m *NfdMgmtThread) Vf19Drain() []NfdMgmtCmd {
+	var out []NfdMgmtCmd
+	for {
+		select {
+		case cmd := <-m.channel:
+			out = append(out, cmd)
+		default:
+			return out
+		}
+	}
+}
